@@ -11,6 +11,7 @@ abstract expression, evaluation of the parsed text = Spec evaluation, one comman
 operands the Spec states, unsupported constructs refused.  Helper lemmas: Proofs/Bd.lean.
 -/
 import SpsdkVerif.Proofs.Bd
+import SpsdkVerif.Proofs.BdLex
 namespace SpsdkVerif.C19
 open SpsdkVerif SpsdkVerif.Bd SpsdkVerif.Generated
 
@@ -267,6 +268,43 @@ theorem eval_parse_print (vars : Vars) (b : BExpr) (v : Val) (h : Spec.evalB var
      | .error _ => none) = some (.ok v) := by
   rw [parse_print_bool]
   simp only [evalB_refines vars b v h]
+
+/-! ### Text level: lexer model ∘ rendering, and the composition with the parser -/
+
+/-- the lexer model reads every token list that has a concrete syntax back from its canonical text (numbers in decimal,
+    identifiers that are neither keywords nor source names, operators with the spelling of the lexer source, an int-size
+    suffix attached directly to a token ending in a hexadecimal digit — the look-behind of the INT_SIZE rule) -/
+theorem lex_print (srcs : List String) (ts : List Tok) (h : Lexable srcs ts = true) :
+    lex srcs (String.ofList (render ts)) = .ok ts := lex_print' srcs ts h
+
+/-- text-level round trip: printing a syntax tree as TEXT and reading it back (lexer model, then reference parser with the
+    implementation's levels) gives the same tree, whenever its token list has a concrete syntax -/
+theorem parse_print_text (srcs : List String) (b : BExpr) (h : Lexable srcs (prB genLevels 0 b) = true) :
+    parseTextB srcs (printTextB b) = some b := by
+  unfold parseTextB printTextB
+  rw [lex_print srcs _ h]
+  simp only [parse_print_bool]
+
+theorem parse_print_text_expr (srcs : List String) (e : Expr) (h : Lexable srcs (pr genLevels 0 e) = true) :
+    parseTextE srcs (printTextE e) = some e := by
+  unfold parseTextE printTextE
+  rw [lex_print srcs _ h]
+  simp only [parse_print]
+
+/-- the printed text of an expression evaluates — through lexer model, reference parser and the generated rule actions — to
+    the value the Spec gives to the expression -/
+theorem eval_text (srcs : List String) (vars : Vars) (b : BExpr) (v : Val) (h : Lexable srcs (prB genLevels 0 b) = true)
+    (hv : Spec.evalB vars b = .ok v) : evalBoolText srcs vars (printTextB b) = .ok v := by
+  unfold evalBoolText printTextB
+  rw [lex_print srcs _ h]
+  simp only [parse_print_bool, evalB_refines vars b v hv, liftPy]
+
+example : Lexable [] (prB genLevels 0 (.bin .lt (.atom (.size .b (.bin .add (.lit 1) (.bin .mul (.var "c0de") (.lit 31)))))
+    (.lnot (.defined "x")))) = true := by decide
+example : printTextB (.bin .lt (.atom (.size .b (.bin .add (.lit 1) (.bin .mul (.var "c0de") (.lit 31))))) (.lnot (.defined "x")))
+    = "1 + c0de * 31.b < ! defined ( x ) " := by decide
+/-- no concrete syntax: the suffix would follow a parenthesis -/
+example : Lexable [] (prB genLevels 0 (.atom (.size .b (.bin .mul (.lit 2) (.bin .add (.lit 1) (.lit 2)))))) = false := by decide
 
 /-! ### Statements -/
 
